@@ -178,11 +178,24 @@ def mk_event(cls, src, dest, as_bytes):
     return cls(src)
 
 
+def is_dir_class(cls):
+    """Which event classes are directory events is read off their names, not asked of the library."""
+    return cls.__name__.startswith("Dir")
+
+
+EVENT_TYPES = {"Moved": "moved", "Created": "created", "Deleted": "deleted", "Modified": "modified", "Closed": "closed", "ClosedNoWrite": "closed_no_write", "Opened": "opened"}
+
+
 def check_base(cls, src, dest, as_bytes):
     from watchdog.events import FileSystemEventHandler
 
     h, calls = recorder(FileSystemEventHandler)
     e = mk_event(cls, src, dest, as_bytes)
+    n = cls.__name__
+    if n.startswith(("Dir", "File")) and n != "FileSystemEvent" and n != "FileSystemMovedEvent":
+        kind = n[3:-5] if n.startswith("Dir") else n[4:-5]
+        if e.is_directory != n.startswith("Dir") or cls.is_directory != n.startswith("Dir") or e.event_type != EVENT_TYPES[kind]:
+            raise Violation(f"{n}: is_directory={e.is_directory!r} (class attribute {cls.is_directory!r}), event_type={e.event_type!r}", "event-attributes")
     h.dispatch(e)
     exp = ["on_any_event", f"on_{cls.event_type}"]
     if calls != exp:
@@ -200,7 +213,7 @@ def check_pattern(cls, src, dest, inc, exc, cs, ign, as_bytes):
     exp_dispatch = None
     conflict = False
     soft = False
-    if ign and cls.is_directory:
+    if ign and is_dir_class(cls):
         exp_dispatch = False
         classes.append("ignored-directory")
         nontrivial = True
@@ -270,7 +283,7 @@ def check_regex(cls, src, dest, regexes, ignore, cs, ign, as_bytes):
     paths = [p for p in ((dest if issubclass(cls, FileSystemMovedEvent) else ""), src) if p]
     classes = []
     nontrivial = False
-    if ign and cls.is_directory:
+    if ign and is_dir_class(cls):
         exp_dispatch = False
         classes.append("ignored-directory")
         nontrivial = True
@@ -354,7 +367,7 @@ def check_sequence(hkind, inc, exc, cs, ign, events, as_bytes):
         paths = [p for p in ((dest if "Moved" in cname else ""), src) if p]
         if hkind == "base":
             exp_dispatch = True
-        elif ign and cls.is_directory:
+        elif ign and is_dir_class(cls):
             exp_dispatch = False
         elif hkind == "pattern":
             verdicts = []
